@@ -3013,6 +3013,19 @@ func (c S3ApiController) DeleteObjects(ctx *fiber.Ctx) error {
 			})
 	}
 
+	for _, obj := range dObj.Objects {
+		// keys and version ids become filesystem paths in the backend
+		if !backend.IsOpaquePath(getstring(obj.Key)) || !backend.IsOpaqueId(getstring(obj.VersionId)) {
+			return SendResponse(ctx, s3err.GetAPIError(s3err.ErrInvalidRequest),
+				&MetaOpts{
+					Logger:      c.logger,
+					MetricsMng:  c.mm,
+					Action:      metrics.ActionDeleteObjects,
+					BucketOwner: parsedAcl.Owner,
+				})
+		}
+	}
+
 	err = auth.VerifyAccess(ctx.Context(), c.be,
 		auth.AccessOptions{
 			Readonly:      c.readonly,
